@@ -74,6 +74,8 @@ def pipeline(ctx):
                                "remove_equal": "unknown" if not s.get("removed_orig_ok", False) else yn(s.get("remove_equal")),
                                "usable": bool(s.get("accepts", True) and s.get("rewritable", True)), "media": yn(s.get("media_same")), "foreign": fg})
             owner.append((ri, si))
+            for fwr in s.get("fwrite", []):
+                events.append({"e": "fwrite", "delta": fwr["delta"], "ok": fwr["ok"], "read": "equal" if fwr["read"] == "equal" else fwr["read"].split(":")[0]}); owner.append((ri, si))
     accepted, matched, res = validate_trace(ctx, "Trace_Container", "Trace_Container.cfg", events, timeout=2400, heap="8g")
     if matched != len(events):
         sys.stderr.write(res.out[-3000:])
